@@ -41,20 +41,20 @@ unsigned long in_o, in_v, in_w, in_op, in_sel;
 static void rmw_##NAME(void)										\
 {													\
 	struct { unsigned long g0; T x; unsigned char g1[8]; } s;					\
-	T o = (T) in_o, r;										\
+	T o = (T) in_o; long long r;	/* the RAW value of the expression, widened: a result computed in a promoted type and not truncated back must not hide behind an assignment to T */	\
 	V v = (V) in_v;											\
 	T w = (T) in_w;											\
 	s.g0 = GUARD; GUARD_AFTER_SET(s);								\
 	switch (in_op) {										\
 	case 0:												\
-		s.x = o; r = uatomic_add_return(&s.x, v);						\
+		s.x = o; r = (long long) uatomic_add_return(&s.x, v);						\
 		VERIF_ASSERT(s.x == ADD(T, o, v), #NAME " add_return: stored value = o + v truncated to the width");	\
-		VERIF_ASSERT(r == ADD(T, o, v), #NAME " add_return: returns the new value with the type of the object");	\
+		VERIF_ASSERT(r == (long long) ADD(T, o, v), #NAME " add_return: returns the new value with the type of the object");	\
 		break;											\
 	case 1:												\
-		s.x = o; r = uatomic_sub_return(&s.x, v);						\
+		s.x = o; r = (long long) uatomic_sub_return(&s.x, v);						\
 		VERIF_ASSERT(s.x == SUB(T, o, v), #NAME " sub_return: stored value = o - v truncated to the width");	\
-		VERIF_ASSERT(r == SUB(T, o, v), #NAME " sub_return: returns the new value with the type of the object");	\
+		VERIF_ASSERT(r == (long long) SUB(T, o, v), #NAME " sub_return: returns the new value with the type of the object");	\
 		break;											\
 	case 2:												\
 		s.x = o; uatomic_add(&s.x, v);								\
@@ -81,26 +81,26 @@ static void rmw_##NAME(void)										\
 		VERIF_ASSERT(s.x == (T) (o | v), #NAME " or: stored value = o | v");			\
 		break;											\
 	case 8:												\
-		s.x = o; r = uatomic_xchg(&s.x, v);							\
+		s.x = o; r = (long long) uatomic_xchg(&s.x, v);							\
 		VERIF_ASSERT(s.x == (T) v, #NAME " xchg: stores the operand truncated to the width");	\
-		VERIF_ASSERT(r == o, #NAME " xchg: returns the old value with the sign of the object's type");	\
+		VERIF_ASSERT(r == (long long) o, #NAME " xchg: returns the old value with the sign of the object's type");	\
 		break;											\
 	case 9:												\
-		s.x = o; r = uatomic_cmpxchg(&s.x, w, v);						\
-		VERIF_ASSERT(r == o, #NAME " cmpxchg: returns the old value with the sign of the object's type");	\
+		s.x = o; r = (long long) uatomic_cmpxchg(&s.x, w, v);						\
+		VERIF_ASSERT(r == (long long) o, #NAME " cmpxchg: returns the old value with the sign of the object's type");	\
 		VERIF_ASSERT(s.x == (o == w ? (T) v : o), #NAME " cmpxchg: stores new iff old == expected");	\
 		break;											\
 	case 10:											\
 		s.x = o; uatomic_set(&s.x, v);								\
 		VERIF_ASSERT(s.x == (T) v, #NAME " set: stores the operand truncated to the width");	\
-		r = uatomic_read(&s.x);									\
-		VERIF_ASSERT(r == (T) v, #NAME " read: returns the stored value");			\
+		r = (long long) uatomic_read(&s.x);									\
+		VERIF_ASSERT(r == (long long) (T) v, #NAME " read: returns the stored value");			\
 		break;											\
 	default:											\
 		s.x = o; uatomic_store(&s.x, v, CMM_SEQ_CST);						\
 		VERIF_ASSERT(s.x == (T) v, #NAME " store(SEQ_CST): stores the operand");		\
-		r = uatomic_load(&s.x, CMM_SEQ_CST);							\
-		VERIF_ASSERT(r == (T) v, #NAME " load(SEQ_CST): returns the stored value");		\
+		r = (long long) uatomic_load(&s.x, CMM_SEQ_CST);							\
+		VERIF_ASSERT(r == (long long) (T) v, #NAME " load(SEQ_CST): returns the stored value");		\
 		break;											\
 	}												\
 	CHECK_GUARDS(s, #NAME);										\
